@@ -6,8 +6,11 @@ id=$1; shift; extra="$*"
 d=/verif/seeded/$id; w=/tmp/confirm_$id
 rm -rf $w; git -C /repo worktree add -q $w HEAD || exit 2
 cd $w
+[ -f $d/cflags ] && extra="$extra $(cat $d/cflags)"
+SRCS="src/bit_shift.c src/buffer.c src/copy.c src/core.c src/crc32c.c src/datatype.c src/ec.c src/log.c src/msg_ring_buffer.c src/raw.c src/reader.c src/statistics.c src/threaded_writer.c src/tmap.c src/track.c src/wr_fsr.c src/wr_ts.c src/writer.c src/backend_posix.c"
 build_demo() { 
   if grep -q "msg_ring_buffer.c" $d/build_cmd 2>/dev/null; then cc -std=c11 -I include -I include_prv $d/demo.c src/msg_ring_buffer.c src/log.c -o $w/demo_bin; 
+  elif [ -f $d/asan_sources ]; then clang -fsanitize=address -fno-omit-frame-pointer -g -O1 -w -I include -I include_prv -D__FILENAME__=\"x\" -msse4.2 $SRCS $d/demo.c -lm -lpthread -o $w/demo_bin;
   else cc -O1 -g -I include -I include_prv $d/demo.c _build/src/libjls.a -lm -lpthread $extra -o $w/demo_bin; fi; }
 res=""
 cmake -G Ninja -B _build >/dev/null 2>&1 && cmake --build _build >/dev/null 2>&1 || { echo "$id: baseline build failed"; exit 2; }
